@@ -106,7 +106,9 @@ func runC11(r *Report) {
 	}
 
 	// ---- R-C11-1 untrusted fields are inert ------------------------------------------------
-	untrusted := map[string][]string{"CommandPacket": {"SenderId", "ReceiverId", "Token"}, "CommandContext": {"SenderID", "ReceiverID"}}
+	untrusted := map[string][]string{"CommandPacket": {"SenderId", "ReceiverId", "Token"}, "CommandContext": {"SenderID", "ReceiverID"},
+		// body of the SOCKS5 tunnel request: the recipient is the mapping's target, never the id the body names
+		"SOCKS5TunnelRequest": {"TargetClientID"}}
 	nReads := 0
 	for _, f := range r.P.Funcs {
 		pk := ""
